@@ -305,5 +305,6 @@ def gsize_all():
 
 
 def c17_hdr():
-    return ('    #[cfg_attr(kani, kani::proof)]\n    #[cfg_attr(kani, kani::unwind(11))]\n%s'
+    # unwind 31: a 256-bit stream holds at most 28 extra-information bytes, whatever position the loop starts at
+    return ('    #[cfg_attr(kani, kani::proof)]\n    #[cfg_attr(kani, kani::unwind(31))]\n%s'
             '    pub fn c17_header_parse_independent() { parse_independent() }\n' % MODEL_STUBS)
